@@ -443,6 +443,10 @@ func streamZones(c *ctx) {
 		for _, g := range [][6]int{{2021, 3, 14, 2, 30, 0}, {2021, 10, 3, 2, 15, 45}, {2021, 3, 28, 2, 30, 0}, {2024, 3, 10, 2, 0, 0}} {
 			emitDT(g[0], g[1], g[2], g[3], g[4], g[5], "dt/gap-of-another-zone")
 		}
+		// the ends of the two-digit year range of the status system date (69 = 1969 .. 68 = 2068), whatever year it is now
+		for _, g := range [][6]int{{2068, 12, 31, 23, 59, 59}, {2050, 1, 1, 0, 0, 1}, {2047, 6, 15, 12, 0, 0}, {2038, 1, 19, 3, 14, 8}, {1969, 1, 2, 0, 0, 0}, {1975, 6, 15, 12, 0, 0}, {1999, 12, 31, 23, 59, 59}} {
+			emitDT(g[0], g[1], g[2], g[3], g[4], g[5], "dt/two-digit-year-range")
+		}
 		// times of day with zero hours and seconds (what a decoder that looks at every other byte would take for zero)
 		for _, g := range [][6]int{{2024, 6, 15, 0, 1, 0}, {2024, 6, 15, 0, 59, 0}, {2024, 6, 15, 0, 30, 0}, {2024, 6, 15, 10, 0, 0}, {2024, 6, 15, 0, 0, 30}} {
 			emitDT(g[0], g[1], g[2], g[3], g[4], g[5], "dt/zero-hours-and-seconds")
